@@ -13,7 +13,10 @@ THEOREMS = core.theorems_in(['C03.lean'], 'Flowdyn.C03') + ['Flowdyn.C16.%s_comp
            ['Flowdyn.C11.grad_const', 'Flowdyn.C11.recL_const', 'Flowdyn.C11.recR_const', 'Flowdyn.C11.limzero_all']
 AUDIT_IMPORTS = ['Flowdyn.Props.C16', 'Flowdyn.Props.C11', 'Flowdyn.Props.C07b']
 THEOREMS = THEOREMS + ['Flowdyn.C07.loop_preserves', 'Flowdyn.C07.run_preserves', 'Flowdyn.C07.run_preserves_data']
-PARTIAL = {"implicit/2D": "fixed-point theorems for the implicit family (injectivity hypothesis) and for the 2D pipeline are pending; both are covered by the sweep"}
+AUDIT_IMPORTS = AUDIT_IMPORTS + ['Flowdyn.Props.C03b', 'Flowdyn.Props.C06']
+THEOREMS = THEOREMS + core.theorems_in(['C03b.lean'], 'Flowdyn.C03') + ['Flowdyn.C06.thetaStep_fixed']
+PARTIAL = {"implicit": "a theta-step fixes zeros of the operator (C06.thetaStep_fixed); gear with memory and the lift of the implicit family to whole solves are covered by the sweep (theorems pending)",
+           "2D": "the 2D operator vanishes on uniform states for any scheme/flux when each side pair is periodic or its kernels fix the state (C03b.rhs2d_const_zero), with the Euler 2D kernels: sym, outsub, outsup, insub, insup (normal or angle), dirichlet (C03b.*_fixes, insub2d_compatible, insup2d_compatible)"}
 LEVEL_NOTE = "zero residual of a uniform state proved for any mesh/reconstruction/pointwise flux and boundary kernels fixing the state (C16 compatibility theorems); explicit integrators fix zeros of the operator"
 
 INTS = ['explicit', 'rk2', 'rk2_heun', 'rk3_heun', 'rk3ssp', 'rk4', 'lsrk25bb', 'lsrk26bb', 'lsrk4', 'implicit', 'cranknicolson', 'gear']
